@@ -5,6 +5,7 @@
 import Lungo.Spec.Replay
 import Lungo.Proofs.OplogSteps
 import Lungo.Proofs.BeqLaws
+import Lungo.Proofs.ExpireLaws
 namespace Lungo
 open Lungo.Spec
 
@@ -446,5 +447,170 @@ theorem Txn.insert_adv {sch : SchemaEval} {t t' : Txn} {h : Handle} {list : List
     · simp only [hm, Bool.false_eq_true, ↓reduceIte] at hk ⊢
       obtain ⟨es, he⟩ := hgo hk
       exact .inr ⟨rfl, _, Adv.trans hb he⟩
+
+/-! ### delete -/
+
+theorem filterDocs_mem (sch : SchemaEval) (q : Doc) : ∀ (l0 : List SDoc) (lim : Nat) (l : List SDoc),
+    filterDocs sch q lim l0 = .ok l → ∀ x ∈ l, x ∈ l0 := by
+  intro l0
+  induction l0 with
+  | nil => intro lim l h x hx; simp only [filterDocs, Except.ok.injEq] at h; subst h; cases hx
+  | cons sd r ih =>
+    intro lim l h x hx
+    rw [filterDocs] at h
+    split at h
+    · cases h
+    · exact List.mem_cons_of_mem _ (ih _ _ h x hx)
+    · split at h
+      · simp only [Except.ok.injEq] at h; subst h
+        simp only [List.mem_singleton] at hx; subst hx; exact List.mem_cons_self ..
+      · split at h
+        · cases h
+        · rename_i rest hrest
+          simp only [Except.ok.injEq] at h; subst h
+          rcases List.mem_cons.mp hx with rfl | hx'
+          · exact List.mem_cons_self ..
+          · exact List.mem_cons_of_mem _ (ih _ _ hrest x hx')
+
+theorem selectDocs_mem {sch : SchemaEval} {c : Coll} {q : Doc} {sort : Option Doc} {skip limit : Int} {l : List SDoc}
+    (h : selectDocs sch c q sort skip limit = .ok l) : ∀ x ∈ l, x ∈ c.docs := by
+  unfold selectDocs at h
+  split at h
+  · cases h
+  · simp only at h
+    split at h
+    · cases h
+    · rename_i sorted hsorted
+      split at h
+      · cases h
+      · rename_i fl hfl
+        simp only [Except.ok.injEq] at h
+        subst h
+        intro x hx
+        have hx1 := filterDocs_mem sch q _ _ _ hfl x (List.mem_of_mem_drop hx)
+        split at hsorted
+        · split at hsorted
+          · simp only [Except.ok.injEq] at hsorted; subst hsorted; exact hx1
+          · split at hsorted
+            · cases hsorted
+            · simp only [Except.ok.injEq] at hsorted; subst hsorted
+              exact (List.mergeSort_perm _ _).mem_iff.mp hx1
+        · simp only [Except.ok.injEq] at hsorted; subst hsorted; exact hx1
+
+theorem Coll.delete_shape {sch : SchemaEval} {c c' : Coll} {q : Doc} {sort : Option Doc} {skip limit : Int}
+    {list : List SDoc} (h : c.delete sch q sort skip limit = .ok (c', list)) :
+    (∀ x ∈ list, x ∈ c.docs) ∧ c'.docs = c.docs.filter (fun sd => !(list.any (·.id == sd.id))) := by
+  unfold Coll.delete at h
+  split at h
+  · cases h
+  · rename_i l hsel
+    split at h
+    · cases h
+    · simp only [Except.ok.injEq, Prod.mk.injEq] at h
+      obtain ⟨rfl, rfl⟩ := h
+      exact ⟨selectDocs_mem hsel, rfl⟩
+
+theorem fold_deletes (h : Handle) (list : List SDoc) (L : List Doc) :
+    ((list.map fun sd => (⟨h, "delete", some sd.doc, none⟩ : EvSpec)).filterMap specChange).foldl
+        (fun l ch => changeDocs ch h l) L
+      = L.filter fun d => !(list.any fun x => keyOf d == keyOf x.doc) := by
+  induction list generalizing L with
+  | nil =>
+    simp only [List.map_nil, List.filterMap_nil, List.foldl_nil, List.any_nil, Bool.not_false]
+    exact (List.filter_eq_self.mpr (by simp)).symm
+  | cons sd r ih =>
+    have hs : specChange ⟨h, "delete", some sd.doc, none⟩ = some (.delete h (Get sd.doc "_id")) := by
+      simp [specChange]
+    have hc : changeDocs (.delete h (Get sd.doc "_id")) h L = L.filter fun d => !(keyOf d == Get sd.doc "_id") := by
+      simp [changeDocs]
+    simp only [List.map_cons, List.filterMap_cons, hs, List.foldl_cons]
+    rw [ih, hc, List.filter_filter]
+    apply List.filter_congr
+    intro d _
+    simp only [List.any_cons, keyOf, Bool.not_or, Bool.and_comm]
+
+theorem key_eq_of_mem {c : Coll} (hk : KeysDistinct c) {x y : SDoc} (hx : x ∈ c.docs) (hy : y ∈ c.docs)
+    (e : keyOf x.doc = keyOf y.doc) : x = y := by
+  unfold KeysDistinct at hk
+  generalize c.docs = l at *
+  induction l with
+  | nil => cases hx
+  | cons a r ih =>
+    rw [List.pairwise_cons] at hk
+    rcases List.mem_cons.mp hx with rfl | hx' <;> rcases List.mem_cons.mp hy with rfl | hy'
+    · rfl
+    · exact absurd e (hk.1 y hy')
+    · exact absurd e.symm (hk.1 x hx')
+    · exact ih hk.2 hx' hy'
+
+/-- removing by identity = removing by key, for a coherent collection -/
+theorem delete_docs_by_key {c : Coll} (hid : DocIdsDistinct c) (hk : KeysDistinct c) (list : List SDoc)
+    (hsub : ∀ x ∈ list, x ∈ c.docs) :
+    (c.docs.filter fun sd => !(list.any (·.id == sd.id))).map (·.doc)
+      = (c.docs.map (·.doc)).filter fun d => !(list.any fun x => keyOf d == keyOf x.doc) := by
+  rw [List.filter_map]
+  congr 1
+  apply List.filter_congr
+  intro sd hsd
+  simp only [Function.comp]
+  congr 1
+  cases h1 : list.any (fun x => x.id == sd.id) with
+  | true =>
+    rw [List.any_eq_true] at h1
+    obtain ⟨x, hx, hxid⟩ := h1
+    have : x = sd := sdoc_eq_of_id hid (hsub x hx) hsd (by simpa using hxid)
+    symm; rw [List.any_eq_true]
+    exact ⟨x, hx, by rw [this]; exact (V.beq_iff _ _).mpr rfl⟩
+  | false =>
+    symm; rw [List.any_eq_false]
+    intro x hx hkx
+    have hke : keyOf sd.doc = keyOf x.doc := (V.beq_iff _ _).mp hkx
+    have : sd = x := key_eq_of_mem hk hsd (hsub x hx) hke
+    rw [List.any_eq_false] at h1
+    exact h1 x hx (by simp [this])
+
+theorem deleteOp_adv {sch : SchemaEval} {cat cat' : Catalog} {h : Handle} {q : Doc} {sort : Option Doc}
+    {skip limit : Int} {nu nu' : Nu} {res : TResult}
+    (hno : h ≠ oplogHandle) (hid : DocIdsDistinct (ensureNs cat h)) (hk : KeysDistinct (ensureNs cat h))
+    (hr : deleteOp sch cat h q sort skip limit nu = .ok (cat', res, nu')) : ∃ es, Adv cat cat' es := by
+  unfold deleteOp at hr
+  simp only at hr
+  split at hr
+  · cases hr
+  · rename_i coll list hdel
+    simp only [Except.ok.injEq, Prod.mk.injEq] at hr
+    obtain ⟨rfl, _, _⟩ := hr
+    obtain ⟨hsub, hdocs⟩ := Coll.delete_shape hdel
+    have hf := foldl_appendOplog list (fun sd => (⟨h, "delete", some sd.doc, none⟩ : EvSpec)) (cat.set h coll, nu)
+    simp only at hf
+    rw [hf]
+    refine ⟨_, Ext.trans (Ext.set cat h coll hno) (Ext.appendEvs (cat.set h coll, nu) _), ?_⟩
+    apply Faith.coll_op cat h coll nu _ hno
+    · intro e he
+      simp only [List.mem_map] at he
+      obtain ⟨sd, _, rfl⟩ := he
+      exact ⟨rfl, by simp⟩
+    · rw [fold_deletes, docsOf_ensureNs, hdocs]
+      exact delete_docs_by_key hid hk list hsub
+
+theorem Txn.delete_adv {sch : SchemaEval} {t t' : Txn} {h : Handle} {q : Doc} {sort : Option Doc}
+    {skip limit : Int} {nu nu' : Nu} {r : TResult}
+    (hid : DocIdsDistinct (ensureNs t.catalog h)) (hk : KeysDistinct (ensureNs t.catalog h))
+    (hr : t.delete sch h q sort skip limit nu = .ok (t', r, nu')) : TAdv t t' := by
+  unfold Txn.delete at hr
+  split at hr
+  · cases hr
+  · rename_i hw
+    have hno := writable_not_oplog hw
+    split at hr
+    · simp only [Except.ok.injEq, Prod.mk.injEq] at hr; exact .inl hr.1.symm
+    · split at hr
+      · cases hr
+      · rename_i cat res nu1 hop
+        split at hr
+        · simp only [Except.ok.injEq, Prod.mk.injEq] at hr
+          obtain ⟨rfl, _, _⟩ := hr
+          exact .inr ⟨rfl, deleteOp_adv hno hid hk hop⟩
+        · simp only [Except.ok.injEq, Prod.mk.injEq] at hr; exact .inl hr.1.symm
 
 end Lungo
